@@ -10,6 +10,13 @@
  *   rank                          hwloc_topology_refresh
  *   dup                           hwloc_topology_dup, continue on the copy
  *   xml                           export to an XML buffer, reload from it
+ *   ireg <set> <forced> <flags> <NULL | n name value ...>    hwloc_internal_cpukinds_register called the way
+ *                                 the backends do (any flags, no ranking afterwards)
+ *   adopt                         hwloc_shmem_topology_write to a temporary file + hwloc_shmem_topology_adopt,
+ *                                 continue on the adopted (read-only) topology
+ *   caseroot <name> <dir> <homogeneous|-> <ranking|-> [maxfreq|-]   new topology from a Linux sysfs snapshot (HWLOC_FSROOT),
+ *                                 with HWLOC_CPUKINDS_HOMOGENEOUS / HWLOC_CPUKINDS_RANKING / HWLOC_CPUKINDS_MAXFREQ set as given;
+ *                                 the kinds are those the Linux backend registers
  * sets:  NULL | f:<hex> (finite) | i:<hex> (infinite; hex = the *unset* bits)
  * strings are hex-encoded bytes, "-" is the empty string.
  * Sets are read and printed through raw words only (set_ith_ulong /
@@ -17,7 +24,10 @@
 #include "private/autogen/config.h"
 #include "hwloc.h"
 #include "private/private.h"
+#include "hwloc/shmem.h"
 #include <stdio.h>
+#include <unistd.h>
+#include <sys/mman.h>
 #include <stdlib.h>
 #include <string.h>
 #include <errno.h>
@@ -96,6 +106,7 @@ static const char *errclass(int rc)
   case ENOENT: return "ENOENT";
   case EXDEV: return "EXDEV";
   case ENOMEM: return "ENOMEM";
+  case EPERM: return "EPERM";
   default: return "EOTHER";
   }
 }
@@ -158,13 +169,29 @@ int main(int argc, char *argv[])
       dump();
       continue;
     }
+    if (!strcmp(tok[0], "caseroot")) {
+      if (topo) hwloc_topology_destroy(topo);
+      topo = NULL;
+      setenv("HWLOC_FSROOT", tok[2], 1);
+      setenv("HWLOC_COMPONENTS", "linux,stop", 1);
+      setenv("HWLOC_THISSYSTEM", "0", 1);
+      if (strcmp(tok[3], "-")) setenv("HWLOC_CPUKINDS_HOMOGENEOUS", tok[3], 1); else unsetenv("HWLOC_CPUKINDS_HOMOGENEOUS");
+      if (strcmp(tok[4], "-")) { char *v = unhex(tok[4]); setenv("HWLOC_CPUKINDS_RANKING", v, 1); free(v); } else unsetenv("HWLOC_CPUKINDS_RANKING");
+      if (ntok > 5 && strcmp(tok[5], "-")) setenv("HWLOC_CPUKINDS_MAXFREQ", tok[5], 1); else unsetenv("HWLOC_CPUKINDS_MAXFREQ");
+      hwloc_topology_init(&topo);
+      if (hwloc_topology_load(topo) < 0) { printf("case %s\nload failed\n", tok[1]); hwloc_topology_destroy(topo); topo = NULL; }
+      else { printf("case %s\n", tok[1]); dump(); }
+      unsetenv("HWLOC_FSROOT"); unsetenv("HWLOC_COMPONENTS"); unsetenv("HWLOC_THISSYSTEM"); unsetenv("HWLOC_CPUKINDS_HOMOGENEOUS"); unsetenv("HWLOC_CPUKINDS_MAXFREQ");
+      continue;
+    }
     if (!topo) continue;
     if (!strcmp(tok[0], "env")) {
       if (!strcmp(tok[1], "-") ) unsetenv("HWLOC_CPUKINDS_RANKING");
       else { char *v = unhex(tok[1]); setenv("HWLOC_CPUKINDS_RANKING", v, 1); free(v); }
       printf("env\n");
       fflush(stdout);
-    } else if (!strcmp(tok[0], "reg")) {
+    } else if (!strcmp(tok[0], "reg") || !strcmp(tok[0], "ireg")) {
+      int internal = tok[0][0] == 'i';
       hwloc_bitmap_t s = parse_set(tok[1]);
       int forced = atoi(tok[2]);
       unsigned long flags = strtoul(tok[3], NULL, 10);
@@ -183,8 +210,14 @@ int main(int argc, char *argv[])
         ip = &infos;
       }
       errno = 0;
-      rc = hwloc_cpukinds_register(topo, s, forced, ip, flags);
-      printf("reg rc=%d err=%s\n", rc, errclass(rc));
+      if (internal) {
+        /* the callee owns the cpuset, except when it rejects the flags (it then returns without freeing it) */
+        int keep = s && !hwloc_bitmap_iszero(s) && (flags & ~HWLOC_CPUKINDS_REGISTER_FLAG_OVERWRITE_FORCED_EFFICIENCY);
+        rc = hwloc_internal_cpukinds_register(topo, s, forced, ip, flags);
+        if (!keep) s = NULL;
+      } else
+        rc = hwloc_cpukinds_register(topo, s, forced, ip, flags);
+      printf("%s rc=%d err=%s\n", tok[0], rc, errclass(rc));
       for (i = 0; i < infos.count; i++) { free(infos.array[i].name); free(infos.array[i].value); }
       free(infos.array);
       hwloc_bitmap_free(s);
@@ -223,7 +256,7 @@ int main(int argc, char *argv[])
       hwloc_bitmap_free(s);
       fflush(stdout);
     } else if (!strcmp(tok[0], "rank")) {
-      int rc = hwloc_topology_refresh(topo);
+      int rc = (errno = 0, hwloc_topology_refresh(topo));
       printf("rank rc=%d err=%s\n", rc, errclass(rc));
       dump();
     } else if (!strcmp(tok[0], "dup")) {
@@ -231,6 +264,26 @@ int main(int argc, char *argv[])
       int rc = hwloc_topology_dup(&n, topo);
       if (!rc) { hwloc_topology_destroy(topo); topo = n; }
       printf("dup rc=%d err=%s\n", rc, errclass(rc));
+      dump();
+    } else if (!strcmp(tok[0], "adopt")) {
+      size_t len = 0;
+      int rc = hwloc_shmem_topology_get_length(topo, &len, 0);
+      char path[] = "/tmp/hwv-c15-shm-XXXXXX";
+      int fd = rc ? -1 : mkstemp(path);
+      hwloc_topology_t n = NULL;
+      if (fd >= 0) {
+        void *addr;
+        unlink(path);
+        if (ftruncate(fd, (off_t) len) < 0) rc = -1;
+        addr = mmap(NULL, len, PROT_NONE, MAP_PRIVATE | MAP_ANONYMOUS, -1, 0);
+        if (addr == MAP_FAILED) rc = -1;
+        else munmap(addr, len);
+        if (!rc) rc = hwloc_shmem_topology_write(topo, fd, 0, addr, len, 0);
+        if (!rc) rc = hwloc_shmem_topology_adopt(&n, fd, 0, addr, len, 0);
+        if (!rc) { hwloc_topology_destroy(topo); topo = n; }
+        close(fd);
+      } else rc = -1;
+      printf("adopt rc=%d err=%s\n", rc, errclass(rc));
       dump();
     } else if (!strcmp(tok[0], "xml")) {
       char *buf = NULL;
